@@ -4,13 +4,17 @@
    Only statements, each closed by [exact] of a lemma proved in Ring/RingProofs*.v.
 
    Model: Ring/RingModel.v ([run]: a history of operations on a heap of (Value, prev, next) cells,
-   mirroring ring.go; branch conditions from Gen/RingIdx.v).
+   mirroring ring.go; branch conditions, counter arithmetic, the right-hand side of every pointer
+   assignment and every returned pointer from Gen/RingIdx.v).  All names below ([run], [join],
+   [pop], [at_], ...) are those of Ring/RingModel.v; the proofs go through Ring/RingProofsTie.v
+   (model = the hand-expanded functions of Ring/RingPlain.v).
    Reference: Ring/RingSpec.v ([a_run]: a set of disjoint cyclic sequences of element names plus
    the value of every name; each operation is the picture of the Go doc comment on lists). *)
 From Coq Require Import ZArith List Permutation Lia.
 Import ListNotations.
-From Mds Require Import Ring.RingModel Ring.RingSpec Ring.RingProofsBase Ring.RingProofsRep Ring.RingProofs
-  Ring.RingProofsPictures Ring.RingProofsInt.
+From Mds Require Import Ring.RingBase Ring.RingModel Ring.RingSpec Ring.RingProofsBase Ring.RingProofsRep
+  Ring.RingProofs Ring.RingProofsPictures Ring.RingProofsInt.
+From Mds Require Import Ring.RingProofsTie.   (* last: its [run_heap] is the model's *)
 From Mds Require Import Gen.RingIdx.
 
 (* Refinement over histories: for every element type, every zero value and EVERY list of
@@ -20,7 +24,7 @@ From Mds Require Import Gen.RingIdx.
    are exactly those of the abstract cyclic sequences. *)
 Theorem C10_ring_refinement : forall (T : Type) (zero : T) (ops : list (op T)),
   run T zero empty_heap ops = a_run T zero (a_empty T zero) ops.
-Proof. exact ring_refinement. Qed.
+Proof. exact m_refinement. Qed.
 Print Assumptions C10_ring_refinement.
 
 Example C10_ring_refinement_ex :
@@ -37,7 +41,7 @@ Proof. vm_compute. reflexivity. Qed.
    terminate on every reachable heap. *)
 Theorem C10_ring_no_hang : forall (T : Type) (zero : T) (ops : list (op T)),
   ~ In RFuel (run T zero empty_heap ops).
-Proof. exact ring_no_hang. Qed.
+Proof. exact m_no_hang. Qed.
 Print Assumptions C10_ring_no_hang.
 
 (* The heap reached by any history is represented by the abstract state reached by the same
@@ -45,7 +49,7 @@ Print Assumptions C10_ring_no_hang.
    next and, backwards, by prev, closing on itself; values agree). *)
 Theorem C10_ring_wellformed : forall (T : Type) (zero : T) (ops : list (op T)),
   Rep T (run_heap T zero empty_heap ops) (a_run_state T zero (a_empty T zero) ops).
-Proof. exact ring_reachable_rep. Qed.
+Proof. exact m_reachable_rep. Qed.
 Print Assumptions C10_ring_wellformed.
 
 (* Next and Prev are mutually inverse on every cell of every reachable heap. *)
@@ -54,7 +58,7 @@ Theorem C10_ring_links_inverse : forall (T : Type) (zero : T) (ops : list (op T)
   a < size h ->
   (exists b, b < size h /\ nx T h a = Some b /\ pv T h b = Some a) /\
   (exists c, c < size h /\ pv T h a = Some c /\ nx T h c = Some a).
-Proof. exact ring_links_inverse. Qed.
+Proof. exact m_links_inverse. Qed.
 Print Assumptions C10_ring_links_inverse.
 
 Example C10_ring_links_inverse_ex :
@@ -86,7 +90,7 @@ Theorem C10_ring_join_different : forall (T : Type) (h : heap T) vals n (r : add
   Rep T h (mkA ((r :: A) :: (s :: B) :: others) vals n) ->
   exists h', join (Some r) (Some s) h = (h', Ok (Some (hd r A))) /\
              Rep T h' (mkA ((r :: s :: B ++ A) :: others) vals n).
-Proof. exact join_different_picture. Qed.
+Proof. exact m_join_different. Qed.
 Print Assumptions C10_ring_join_different.
 
 (* same ring [r x L1 s L2]  ->  [r s L2] and the cut-out [x L1]; returns x *)
@@ -94,14 +98,14 @@ Theorem C10_ring_join_same : forall (T : Type) (h : heap T) vals n (r x : addr) 
   Rep T h (mkA ((r :: (x :: L1) ++ s :: L2) :: others) vals n) ->
   exists h', join (Some r) (Some s) h = (h', Ok (Some x)) /\
              Rep T h' (mkA ((r :: s :: L2) :: (x :: L1) :: others) vals n).
-Proof. exact join_same_picture. Qed.
+Proof. exact m_join_same. Qed.
 Print Assumptions C10_ring_join_same.
 
 (* s = r or s = r.next: nil, and the heap is untouched *)
 Theorem C10_ring_join_nothing_between : forall (T : Type) (h : heap T) st (r s : addr),
   Rep T h st -> r < size h -> (s = r \/ nx T h r = Some s) ->
   join (Some r) (Some s) h = (h, Ok None).
-Proof. exact join_nothing_between_picture. Qed.
+Proof. exact m_join_nothing_between. Qed.
 Print Assumptions C10_ring_join_nothing_between.
 
 (* Pop: [r y t] -> [r] and [y t]; returns r *)
@@ -109,7 +113,7 @@ Theorem C10_ring_pop : forall (T : Type) (h : heap T) vals n (r y : addr) t othe
   Rep T h (mkA ((r :: y :: t) :: others) vals n) ->
   exists h', pop (Some r) h = (h', Ok (Some r)) /\
              Rep T h' (mkA ([r] :: (y :: t) :: others) vals n).
-Proof. exact pop_picture. Qed.
+Proof. exact m_pop. Qed.
 Print Assumptions C10_ring_pop.
 
 (* At/Peek n: the element at offset n of the cycle read from r (backwards for n < 0), none when
@@ -124,7 +128,7 @@ Theorem C10_ring_observers : forall (T : Type) (zero : T) (h : heap T) vals n (r
   each (Some r) lim h = (h, Ok (map vals (match lim with O => r :: t | _ => firstn lim (r :: t) end))) /\
   next_of (Some r) h = (h, Ok (Some (hd r t))) /\
   prev_of (Some r) h = (h, Ok (Some (last t r))).
-Proof. exact observers_picture. Qed.
+Proof. exact m_observers. Qed.
 Print Assumptions C10_ring_observers.
 
 Theorem C10_ring_rep_rotate : forall (T : Type) (h : heap T) l1 x l2 others vals n,
@@ -152,7 +156,7 @@ Proof. split; [vm_compute; reflexivity|apply C10_ring_wellformed]. Qed.
    offset is moved toward zero and never negated, so no counter value leaves the int64 range. *)
 Theorem C10_ring_at_int64 : forall (T : Type) (zero : T) (r : ptr) (n : Z) (h : heap T),
   int64 n -> at64 r n h = at_ r n h /\ peek64 T zero r n h = peek T zero r n h.
-Proof. intros T zero r n h Hn. split; [exact (at_width T r n h Hn)|exact (peek_width T zero r n h Hn)]. Qed.
+Proof. exact m_at_width. Qed.
 Print Assumptions C10_ring_at_int64.
 
 (* one iteration of At's loop from an in-range non-zero counter gives an in-range counter that is
@@ -172,3 +176,34 @@ Example C10_ring_at_int64_ex :
                OAt (Some 0) (2 ^ 63 - 1); OAt (Some 0) (-2); OAt (Some 0) 2]
   = [RPtr None; RPeek 0 false; RPtr None; RPtr None; RPtr (Some 2); RPtr (Some 1)].
 Proof. split; [unfold int64; rewrite pow63; lia|vm_compute; reflexivity]. Qed.
+
+(* ---- New and Of at the edges ----
+   New(n) for every n <= 0 (down to the minimum int) and Of() with no values return nil and leave
+   the heap untouched. *)
+Theorem C10_ring_new_nonpos : forall (T : Type) (zero : T) (n : Z) (h : heap T), (n <= 0)%Z ->
+  new T zero n h = (h, Ok None) /\ of T zero [] h = (h, Ok None).
+Proof. exact m_new_nonpos. Qed.
+Print Assumptions C10_ring_new_nonpos.
+
+(* New's counter: from an int64 argument n > 0 the loop only ever holds counters in [1, n]
+   (stated on the condition and the decrement generated from ring.go), so New is insensitive to
+   the width of int; the loop runs n-1 times (C10_ring_no_hang: the budget n is never exhausted). *)
+Theorem C10_ring_new_counter_in_range : forall n : Z, int64 n -> new_nonpos n = false -> new_more n = true ->
+  int64 (new_dec n) /\ new_nonpos (new_dec n) = false /\ (1 <= new_dec n < n)%Z.
+Proof. exact new_counter_in_range. Qed.
+Print Assumptions C10_ring_new_counter_in_range.
+
+Example C10_ring_new_edges_ex :
+  run nat 0 empty_heap [ONew (- 2 ^ 63); ONew 0; OOf []; OLen None; OEach None 0; OIsEmpty None;
+                        ONew 1; OLen (Some 0); ONew 3; OLen (Some 1); OIsEmpty (Some 1)]
+  = [RPtr None; RPtr None; RPtr None; RLen 0; REach []; RBool true;
+     RPtr (Some 0); RLen 1; RPtr (Some 1); RLen 3; RBool false].
+Proof. vm_compute. reflexivity. Qed.
+
+(* Pop on a ring of exactly two elements (the two neighbours of r are the same element) *)
+Example C10_ring_pop_two_ex :
+  run nat 0 empty_heap [OOf [1;2]; OPop (Some 0); OLen (Some 0); OLen (Some 1); ONext (Some 1); OPrev (Some 1);
+                        ONext (Some 0); OJoin (Some 0) (Some 1); OEach (Some 1) 0]
+  = [RPtr (Some 0); RPtr (Some 0); RLen 1; RLen 1; RPtr (Some 1); RPtr (Some 1);
+     RPtr (Some 0); RPtr (Some 0); REach [2; 1]].
+Proof. vm_compute. reflexivity. Qed.
